@@ -358,6 +358,26 @@ class CircuitSimulator:
         self._op_index = 0
         self._measure_results = measure_results
         self._measure_ind = 0
+        # Density-matrix mode with classically controlled gates: a gate
+        # conditioned on a measured bit acts only on the part of the ensemble
+        # in which that outcome occurred. The ensemble is then tracked as
+        # unnormalised density matrices keyed by the classical register
+        # (self._state stays their sum, i.e. the mixed ensemble state).
+        self._branches = None
+        if (
+            self.mode == "density_matrix_simulator"
+            and self._state is not None
+            and self.cbits is not None
+            and any(
+                isinstance(op, Gate) and op.classical_controls
+                for op in self.qc.gates
+            )
+            and any(
+                isinstance(op, Measurement) and op.classical_store is not None
+                for op in self.qc.gates
+            )
+        ):
+            self._branches = {tuple(self.cbits): self._state}
         if self.mode == "state_vector_simulator":
             self._tensor_dims = self._state_dims[0].copy()
             if state.type == "oper":
@@ -489,6 +509,29 @@ class CircuitSimulator:
         self._op_index += 1
 
         current_state = self._state
+        if self._branches is not None:
+            branches = {}
+            for cbits, rho in self._branches.items():
+                if isinstance(op, Measurement):
+                    collapsed, probs = op.measurement_comp_basis(rho)
+                    for i, (rho_i, p) in enumerate(zip(collapsed, probs)):
+                        if rho_i is None:
+                            continue
+                        new_cbits = list(cbits)
+                        if op.classical_store is not None:
+                            new_cbits[op.classical_store] = i
+                        new_cbits = tuple(new_cbits)
+                        branches[new_cbits] = branches.get(new_cbits, 0) + p * rho_i
+                elif (
+                    op.classical_controls is None
+                    or _check_classical_control_value(op, cbits)
+                ):
+                    branches[cbits] = self._evolve_state(op, rho)
+                else:
+                    branches[cbits] = rho
+            self._branches = branches
+            self._state = sum(branches.values())
+            return
         if isinstance(op, Measurement):
             state = self._apply_measurement(op, current_state)
         elif isinstance(op, Gate):
